@@ -25,9 +25,13 @@ CLAIMED = {
  "C02": dict(
   text="As C01 for end-to-end column pairs: tree model + assembly + path enumeration (Holder/Build.v) inside Coq on the implementation's parse trees; "
        "specification spec_flows (aliases shadow names, unresolved columns keep candidates, set operations positional, derived tables and CTEs by "
-       "composition) evaluated on generated ASTs. Proved: refutation witnesses of 6 recorded defect classes.",
-  ref="DESIGN.md section 6 C02, section 12", note=TB + "M = S not proved; guarded generator excludes recorded classes K-C02-1..8 (replayed separately).",
-  tech="Coq model evaluated on the parser's trees + executable Coq specification on generated ASTs"),
+       "composition) evaluated on generated ASTs. Proved: Lemma B steps 1-4 (c02_exact_on_single_select) - for INSERT (with/without column list) / CTAS / "
+       "VIEW over one SELECT from any number of distinct base tables, any number of column / star items, any trivia, inside the executable guards "
+       "stmt_ok and colshape, the model's end-to-end column pairs (extractors + assembly + path enumeration) equal the specification; the unguarded "
+       "statement is refuted by 18 counterexample classes (8 are defects of the implementation, 3 of them new); refutation witnesses of the recorded classes.",
+  ref="DESIGN.md section 6 C02, section 12", note=TB + "M = S at column level is proved for single-SELECT statements over base tables only; derived tables, WITH, UNION, WHERE-IN and expressions "
+       "are checked by correspondence; guarded generator excludes recorded classes K-C02-1..11 (replayed separately).",
+  tech="Coq proof (Lemma B steps 1-4: model pairs = spec_flows) + Coq model evaluated on the parser's trees + executable Coq specification on generated ASTs"),
  "C03": dict(
   text="Theorems about a Gallina model of SQLLineageHolder._build_digraph and the role accessors at dataset level: for scripts without DROP/RENAME "
        "edges and source/target/intermediate equal the property's definition computed from the set of statements (order and repetition invariance), "
